@@ -3,3 +3,4 @@ pub mod c15;
 pub mod c08;
 pub mod c07;
 pub mod c14;
+pub mod c09;
